@@ -11,7 +11,7 @@ ID = 'C17'
 ORACLE_DECIDES = True
 COQ_IMPORTS = ('From CPL Require Import Model.Base Model.RuleTables Corr.C17.\n'
                'From Coq Require Import QArith.\nOpen Scope Z_scope.')
-NONTRIVIAL_RULE = ('k in 2..5 (plus the rejected k = 0, 1 and out-of-range q), r in 0..2, all four flag combinations, q given and '
+NONTRIVIAL_RULE = ('k in 2..5 and {10,11,12,16,36} (plus the rejected k = 0, 1, 37 and out-of-range q), r in 0..2, all four flag combinations, q given and '
                    'None, lambda None / small fractions / outside [0,1]; oracle scripts random, always-quiescent, never-quiescent, '
                    'alternating, exact ties (dyadic only), and EVERY boolean script for k=2,r<=1 and every (boolean, choice) script '
                    'for k=3,r=0 (thorough: also k=4,r=0); walk-through on every one of the 256 tables of k=2,r=1 and on conforming, arbitrary, all-quiescent, none-quiescent and key-shuffled tables with '
@@ -30,6 +30,15 @@ NOTES.append("bucket 'large/near_target/*' (k=2 r=8: 131072 entries; k=3 r=5: 17
              "side sees the constant case CNoModel (check_case = true), because evaluating the association-list model on 10^5 "
              "entries is too slow. It exists because one entry is a lambda step of ~6e-6..8e-6 there, so float tolerances "
              "(np.isclose) in the comparisons are visible only at this size")
+NOTES.append("doubles vs rationals: the code compares the double fl((K-c)/K) (Python int/int: correctly rounded; exact iff K is a power "
+             "of two, i.e. k in {2,4,8,16,32}) with the double target x; the model compares (K-c)/K with a rational lam. The harness "
+             "gives the model lam = c0/K when x == fl(c0/K) for an integer c0, else the exact value of x (float.as_integer_ratio); "
+             "Properties/C17.v proves that this reading yields the same three-way comparison for every monotone rounding "
+             "(C17_double_reading_offgrid / _ongrid; the on-grid case needs distinct grid points to round to distinct doubles: K < 2^52). "
+             "Targets 'offgrid_double' (current lambda +-1e-6, +-1e-9, nextafter, 0.1+0.2, 1/3 as a double) exercise it")
+NOTES.append("k in {10,11,12,16,36} (r = 0 and, up to k = 16, r = 1) exercise the LETTER digits of np.base_repr ('AAA' is code [10;10;10] "
+             "in the model) incl. strong quiescence at k >= 11; k = 36, r = 1 (46656 entries) is oracle-only like the large bucket; "
+             "k = 1 and k = 37 are the rejected neighbours of the domain of C17_rrt_defined")
 ASSUMPTIONS = ['rational draws u and lambda a/b are passed to the code as the doubles a/b; a draw that ties with 1 - lambda is generated '
                'only when both are dyadic (exact in doubles); distinct small fractions differ by far more than an ulp',
                'exception classes of random_rule_table / table_walk_through are not compared (any exception on both sides agrees); '
@@ -155,9 +164,29 @@ def _table(rng, k, r, q, sq, iso, tkind):
     return items
 
 
+def lam_reading(x, K):
+    """The rational the model must be given for the DOUBLE target x (Proofs: reading_ongrid / reading_offgrid):
+    if x is the double of a grid point c0/K (Python int / int is correctly rounded) the model gets c0/K, otherwise the
+    exact value of x.  run_impl recovers x as num / den in both cases."""
+    if K > 0:
+        c = int(round(x * K))
+        for c0 in (c - 1, c, c + 1):
+            if c0 / K == x:
+                return [c0, K]
+    p, q = x.as_integer_ratio()
+    return [p, q]
+
+
 def _target(rng, k, r, q, items, tk):
+    import math
     K = k ** (2 * r + 1)
     cur = Fraction(K - sum(1 for _, v in items if v == q), K)
+    if tk == 'offgrid_double':
+        # doubles that are not multiples of 1/K, most of them next to the current lambda
+        c = cur.numerator / cur.denominator
+        x = rng.choice([c + 1e-6, c - 1e-6, c + 1e-9, c - 1e-9, math.nextafter(c, 2.0), math.nextafter(c, -1.0),
+                        0.1 + 0.2, 1 / 3, c + 1e-6, c - 1e-6])
+        return lam_reading(x, K)
     if tk == 'current':
         return [cur.numerator, cur.denominator]
     if tk == 'grid':
@@ -172,7 +201,7 @@ def _target(rng, k, r, q, items, tk):
 
 
 TKINDS = ['conforming', 'conforming', 'arbitrary', 'all_q', 'no_q', 'shuffled']
-TARGETS = ['current', 'grid', 'grid', 'near', 'offgrid', 'offgrid', 'extreme']
+TARGETS = ['current', 'grid', 'grid', 'near', 'offgrid', 'offgrid', 'extreme', 'offgrid_double', 'offgrid_double']
 CKINDS = ['random', 'random', 'zeros', 'alternating']
 
 
@@ -250,9 +279,11 @@ def generate(rng, tier):
     sts8 = all_states(2, 3)
     for vals in itertools.product((0, 1), repeat=8):
         for sq, iso in flags:
-            tgts = [[0, 1], [1, 1], [1, 2], [3, 8]]
+            qq = rng.randrange(2)
+            cur8 = (8 - sum(1 for v in vals if v == qq)) / 8
+            tgts = [[0, 1], [1, 1], [1, 2], [3, 8], lam_reading(cur8 + 1e-6, 8), lam_reading(cur8 - 1e-6, 8)]
             for lam in (tgts if tier == 'thorough' else [rng.choice(tgts)]):
-                out.append({'kind': 'twt/all-tables/k2r1', 'op': 'twt', 'k': 2, 'r': 1, 'lam': lam, 'q': rng.randrange(2),
+                out.append({'kind': 'twt/all-tables/k2r1', 'op': 'twt', 'k': 2, 'r': 1, 'lam': lam, 'q': qq,
                             'sq': sq, 'iso': iso, 'table': [[s, v] for s, v in zip(sts8, vals)],
                             'cs': [rng.randrange(1000) for _ in range(18)]})
     # ---- structured sweep of random_rule_table
@@ -276,6 +307,28 @@ def generate(rng, tier):
                 for sq in (False, True):
                     out.append(_rrt_case(rng, k, rng.choice([0, 1]), sq, rng.random() < 0.5, qmode, lam, 'never_q',
                                          'rrt/edge/k%d/%s' % (k, qmode)))
+    # ---- k >= 10: np.base_repr writes digits >= 10 as LETTERS (keys like 'AAA'); boundary k = 36 / 37
+    for k in (10, 11, 12, 16, 36):
+        for sq, iso in flags:
+            for okind in ('random', 'never_q', 'alternating'):
+                out.append(_rrt_case(rng, k, 0, sq, iso, rng.choice(['given', 'none']), rng.choice(LAMS), okind,
+                                     'rrt/k%dr0/letters' % k))
+    for k, fl in ((10, [(True, True)]), (11, [(True, True), (True, False)]), (12, [(True, False)]), (16, [(True, True)])):
+        for sq, iso in (fl if tier == 'quick' else flags):
+            if k == 16 and tier == 'thorough' and not sq:
+                continue
+            out.append(_rrt_case(rng, k, 1, sq, iso, 'given', rng.choice([[1, 2], [9, 10], None]), 'random',
+                                 'rrt/k%dr1/letters' % k))
+    for k in (1, 37):
+        for r in (0, 1):
+            for sq in (False, True):
+                out.append({'kind': 'rrt/edge/k%d' % k, 'op': 'rrt', 'k': k, 'r': r, 'lam': [1, 2], 'q': 0, 'sq': sq,
+                            'iso': not sq, 'us': [], 'cs': [], 'ri': 0})
+    for k, r in ((11, 0), (12, 0), (36, 0), (36, 0), (11, 1), (11, 1), (12, 1)):
+        for sq, iso in ((True, True), (True, False)):
+            out.append(_twt_case(rng, k, r, sq, iso, 'conforming', rng.choice(['near', 'offgrid_double', 'grid'] if r == 0
+                                                                               else ['near', 'offgrid_double']),
+                                 'random', 'twt/k%dr%d/letters' % (k, r)))
     # ---- table_walk_through
     n_twt = 500 if tier == 'quick' else 5000
     for i in range(n_twt):
@@ -288,7 +341,7 @@ def generate(rng, tier):
     for k, r in ((2, 1), (3, 1), (2, 2)):
         for sq, iso in flags:
             for tkind in ('conforming', 'arbitrary', 'all_q', 'no_q'):
-                for tk in ('extreme', 'grid', 'offgrid', 'current'):
+                for tk in ('extreme', 'grid', 'offgrid', 'current', 'offgrid_double'):
                     for ck in ('zeros', 'alternating'):
                         out.append(_twt_case(rng, k, r, sq, iso, tkind, tk, ck, 'twt/sweep/k%dr%d' % (k, r)))
     # larger tables: few, and near targets except in the thorough tier
@@ -310,10 +363,12 @@ def generate(rng, tier):
                 (3, 5, False, False, 0), (3, 5, False, False, -2)]
     else:
         plan = [(k, r, sq, iso, j) for k, r in ((2, 8), (3, 5)) for sq, iso in flags for j in (-2, -1, 0, 1, 3)]
+    plan += [(36, 1, True, True, 1), (36, 1, True, False, -1)] + ([(36, 1, False, True, 2), (36, 1, False, False, 0)]
+                                                                  if tier == 'thorough' else [])
     for i, (k, r, sq, iso, j) in enumerate(plan):
         # lambda_val 9/10 (lambda ~ 0.9, both directions open), and for a downward walk sometimes 1 (lambda exactly 1)
         lam = [1, 1] if (j < 0 and i % 4 == 3) else [9, 10]
-        large.append({'kind': 'large/near_target/k%dr%d' % (k, r), 'op': 'large', 'k': k, 'r': r, 'sq': sq, 'iso': iso,
+        large.append({'kind': ('large/near_target/k%dr%d' if k < 36 else 'large/letters/k%dr%d') % (k, r), 'op': 'large', 'k': k, 'r': r, 'sq': sq, 'iso': iso,
                       'lam': lam, 'q': rng.randrange(k), 'j': j, 'seed': rng.randrange(10 ** 6)})
     return out + large
 
@@ -463,7 +518,7 @@ def nontrivial(c, obs):
     if obs[0] != 'ok':
         return False
     if c['op'] == 'large':
-        return obs[1]['K'] > 100000
+        return obs[1]['K'] > 40000
     return c['op'] == 'table_rule' or len(obs[1]['table']) > 0
 
 
@@ -572,7 +627,7 @@ def oracle(c, obs):
     k, r = c['k'], c['r']
     if op == 'rrt':
         q_in = c['q'] if c['q'] is not None else c['ri']
-        valid = k >= 2 and 0 <= q_in <= k - 1
+        valid = 2 <= k <= 36 and 0 <= q_in <= k - 1
         if not valid:
             return None if (obs[0] == 'exc' or k == 1) else 'random_rule_table accepted k=%d, q=%d' % (k, q_in)
         if obs[0] != 'ok':
